@@ -80,7 +80,7 @@ func properties() map[string]*PropertySpec {
 			nat("H_C03_dispatch", "served", "<= 2 routes of 6 kinds with every criteria subset, 0..2 default-route registrations, unbind route or not, request of 6 kinds, scope any int64 on routes / 0..2 on requests", "quick"),
 			nat("H_C03_dispatch3", "served", "as quick with <= 3 routes", "thorough"),
 			nat("H_C03_pairing", "paired", "serveRequests with <= 3 requests: one serve call per request with its own (writer, request) pair", ""),
-			nat("H_C03_manyroutes", "many routes served", "16 routes with interleaved operations, four search routes matching by base DN plus a catch-all; request base a / b / c (sort.Slice is modelled as unstable: elements that compare equal may swap)", ""),
+			nat("H_C03_manyroutes", "many routes served", "16 routes with interleaved operations, four search routes matching by base DN plus a catch-all; request base a / b / c (sort.Slice is modelled as unstable for more than 12 elements, as the library is: a group of elements that compare equal may be permuted)", ""),
 			nat("H_C03_sequence", "sequence served", "two searches in a row on one connection against two search routes (optional base / scope criteria) and an optional default route", ""),
 		}})
 	add(&PropertySpec{ID: "C10",
@@ -326,6 +326,8 @@ func properties() map[string]*PropertySpec {
 			{Name: "H_C02_modify_deep", Native: true, Reach: []string{"returned", "decoded"},
 				Bound: "one level deeper (depth 6) for a narrow tree: envelope <= 2, operation <= 2, one change, its PartialAttribute <= 3 children with <= 2 children each (the values inside a change's SETs are nodes too)",
 				Tweak: func(c *HarnessCfg, tier string) { c.DecodeWidths = "def=2" }},
+			{Name: "H_C02_deepnest", Native: true, Reach: []string{"deep"},
+				Bound: "concrete frames of 33, 64 and 200 nested SEQUENCEs, silent and debug-level logger"},
 			{Name: "H_C02_truncated", Native: true, Reach: []string{"truncated"},
 				Bound: "a stream of 0..2 arbitrary bytes followed by EOF (not a complete element): read error, no panic; the bytes are visible to gldap through bufio.Reader.Peek"},
 			{Name: "H_C02_readRequest_w3", Native: true, Tiers: "thorough", Reach: []string{"returned", "decoded"},
